@@ -99,6 +99,7 @@ def seed_small(minor):
     cells = [code_cell("a = 1\nb = 2\n", outputs=[stream("3\n")], ec=2)]
     if minor >= 2:
         cells.append(md_cell("just some *markdown* text\n"))
+    cells.append(code_cell("import os"))         # a single unterminated line: in-line edits of line 0 followed by new lines
     return notebook(cells, minor, {})
 
 
@@ -183,11 +184,11 @@ def seeds():
 def cell_pool(with_ids):
     i = (lambda s: s) if with_ids else (lambda s: None)
     return [
-        ('C1', code_cell("import os\nx = compute(2)\nprint(x)", id=i('n1'))),                    # similar to SRC0
-        ('C2', code_cell("import os\nx = compute(2)\nprint(x)\nprint(os)", outputs=[stream("2\n")], ec=5, id=i('n2'))),  # similar to C1
+        ('C1', code_cell("import os\nx = compute(2)\nprint(x)", id=i('3f2b8e1a-7c4d-4e5f-9a8b-7c6d5e4f3a2b'))),                    # similar to SRC0; id as JupyterLab writes it (UUID)
+        ('C2', code_cell("import os\nx = compute(2)\nprint(x)\nprint(os)", outputs=[stream("2\n")], ec=5, id=i('9a8b7c6d-5e4f-4a3b-8c2d-1e0f9a8b7c6d'))),  # similar to C1
         ('C3', code_cell("totally_unrelated = {'k': 0}\n", outputs=[error()], ec=6, id=i('n3'))),
-        ('M1', md_cell("## Section\nshared paragraph text ![p](attachment:p.png)\n", attachments={'p.png': {'image/png': PNG1}}, id=i('n4'))),
-        ('M2', md_cell("## Section\nshared paragraph text ![p](attachment:q.png)\n", attachments={'q.png': {'image/png': PNG2}}, id=i('n5'))),
+        ('M1', md_cell("## Section\nshared paragraph text ![p](attachment:p.png)\n", attachments={'p.png': {'image/png': PNG1}}, id=i('m'))),           # shortest valid id
+        ('M2', md_cell("## Section\nshared paragraph text ![p](attachment:q.png)\n", attachments={'q.png': {'image/png': PNG2}}, id=i('M' * 64))),      # longest valid id
         ('M3', md_cell("Completely different prose.", id=i('n6'))),
         ('R1', raw_cell("raw \\LaTeX{} content\n", id=i('n7'))),
     ]
@@ -237,6 +238,7 @@ def source_edits(src):
         out.append(('append-unterminated', src + '\nmore'))
         out.append(('append-unterminated:b', src + '\nextra'))
         out.append(('terminate', src + '\n'))
+        out.append(('extend-last', src + ', sys\nfoo = bar(1)\nprint(os, sys, foo)'))     # characters appended to the last line, then more lines
     if src:
         out.append(('clear', ''))
     out.append(('replace-all', "completely = 'different'\ncontent()\n"))
@@ -492,6 +494,12 @@ def outputs_edits(outs):
         if ot == 'stream':
             no = cp(o); no['text'] = o['text'] + "one more line\n"; out.append(('stream%d:append' % q, O, outs[:q] + [no] + outs[q + 1:]))
             no = cp(o); no['text'] = "different first\n" + ''.join(o['text'].splitlines(True)[1:]); out.append(('stream%d:first' % q, O, outs[:q] + [no] + outs[q + 1:]))
+            fl = o['text'].splitlines(True)[0]
+            for tag, mark in (('tweak', '!'), ('tweak:b', '?')):          # a small change inside the first line: the output stays similar
+                no = cp(o); no['text'] = fl.rstrip('\n') + mark + ('\n' if fl.endswith('\n') else '') + ''.join(o['text'].splitlines(True)[1:])
+                out.append(('stream%d:%s' % (q, tag), O, outs[:q] + [no] + outs[q + 1:]))
+            no = cp(o); no['text'] = "another first\n" + ''.join(o['text'].splitlines(True)[1:]); out.append(('stream%d:first:b' % q, O, outs[:q] + [no] + outs[q + 1:]))
+            no = cp(o); no['text'] = o['text'] + "yet another line\n"; out.append(('stream%d:append:b' % q, O, outs[:q] + [no] + outs[q + 1:]))
         if ot in ('execute_result', 'display_data'):
             data = o['data']
             if 'text/plain' in data and '0x' in data['text/plain']:
@@ -500,9 +508,16 @@ def outputs_edits(outs):
             if 'text/plain' in data:
                 no = cp(o); no['data']['text/plain'] = 'new plain text'
                 out.append(('data%d:plain' % q, O, outs[:q] + [no] + outs[q + 1:]))
+                for tag, mark in (('plain-tweak', ' v2'), ('plain-tweak:b', ' v3')):
+                    no = cp(o); no['data']['text/plain'] = data['text/plain'] + mark
+                    out.append(('data%d:%s' % (q, tag), O, outs[:q] + [no] + outs[q + 1:]))
+                no = cp(o); no['data']['text/plain'] = 'other plain text'
+                out.append(('data%d:plain:b' % q, O, outs[:q] + [no] + outs[q + 1:]))
             if 'image/png' in data:
                 no = cp(o); no['data']['image/png'] = PNG2 if data['image/png'] != PNG2 else PNG3
                 out.append(('data%d:png' % q, O, outs[:q] + [no] + outs[q + 1:]))
+                no = cp(o); no['data']['image/png'] = PNG3 if data['image/png'] != PNG3 else PNG1
+                out.append(('data%d:png:b' % q, O, outs[:q] + [no] + outs[q + 1:]))
                 no = cp(o); del no['data']['image/png']
                 out.append(('data%d:png-remove' % q, O, outs[:q] + [no] + outs[q + 1:]))
             if 'application/json' in data:
@@ -603,6 +618,9 @@ def output_runs(seed, cell, maxlen, names=RUN_OUTPUTS):
 FOCUS = {
     'outputs': ('out@0:stream0:append', 'out@0:stream0:first', 'out@0:data1:plain', 'out@0:data1:png', 'out@0:ometa1:set', 'out@0:ometa1:width',
                 'out@0:oec1', 'out@0:oec1:b', 'out@0:append:Oerr', 'out@0:delete0', 'ec@0:7'),
+    # edits that keep the output similar to its base version (so that it is patched, not replaced), each with two values
+    'outsim': ('out@0:stream0:tweak', 'out@0:stream0:tweak:b', 'out@0:stream0:append', 'out@0:stream0:append:b', 'out@0:data1:plain-tweak', 'out@0:data1:plain-tweak:b',
+               'out@0:data1:png', 'out@0:data1:png:b', 'out@0:ometa1:set', 'out@0:oec1', 'out@0:oec1:b'),
     'source': ('src@0:repl0:a', 'src@0:repl0:b', 'src@0:repl2:a', 'src@0:repl2:b', 'src@0:del1', 'src@0:ins1', 'src@0:tweak1', 'src@0:append-unterminated',
                'src@0:terminate'),
     'meta': ('cellmeta@2:tags+extra', 'cellmeta@2:tags+other', 'cellmeta@2:collapsed-flip', 'cellmeta@2:custom=a1', 'cellmeta@2:custom=a2', 'cellmeta@2:level-2',
@@ -624,15 +642,15 @@ def two_edits(seed, labels):
     allowed = set(labels)
     seen = {canon(seed)}
     one, two = [], []
-    first = [(l, t, n) for l, t, n in succ_valid(seed) if l in allowed]
+    first = [(l, t, n) for l, t, n in successors(seed) if l in allowed and valid(n)]
     for l, t, n in first:
         k = canon(n)
         if k not in seen:
             seen.add(k)
             one.append((l, t, n))
     for l1, t1, n1 in first:
-        for l2, t2, n2 in succ_valid(n1):
-            if l2 in allowed and l2 != l1:
+        for l2, t2, n2 in successors(n1):
+            if l2 in allowed and l2 != l1 and valid(n2):
                 k = canon(n2)
                 if k not in seen:
                     seen.add(k)
@@ -647,15 +665,15 @@ def focus2(seed, field):
     allowed = set(FOCUS[field])
     seen = {canon(seed)}
     out = []
-    first = [(l, t, n) for l, t, n in succ_valid(seed) if l in allowed]
+    first = [(l, t, n) for l, t, n in successors(seed) if l in allowed and valid(n)]
     for l, t, n in first:
         k = canon(n)
         if k not in seen:
             seen.add(k)
             out.append((l, t, n))
     for l1, t1, n1 in first:
-        for l2, t2, n2 in succ_valid(n1):
-            if l2 in allowed and l2 != l1:
+        for l2, t2, n2 in successors(n1):
+            if l2 in allowed and l2 != l1 and valid(n2):
                 k = canon(n2)
                 if k not in seen:
                     seen.add(k)
